@@ -8,7 +8,7 @@ from vlib import core, gen
 PROP = "C16"
 META = {
     "technique": "Coq proof: invariants over ALL event histories of a model of the hot-restart bookkeeping (listener state/epoch/ack count/session states; manager state/epoch/pools/reservePools; per-connection FIFOs with arbitrary delay, loss and foreign traffic; dials that may fail; both checkers with tick/time-out events that may fire at any step); tie: histories observed on the real Listener/SessionManager (handlers wrapped through the package dispatch tables, snapshots under the code's own locks) must be accepted by the model, plus an independent oracle",
-    "level_text": "PARTIAL. Proved for any number of sessions and every event history: no reachable hotRestartState without a running checker on either side (under the guard Listener.Run enforces: sessions enter the table after their handshake — without it `return ErrInHandshakeStage` leaves a state that is stuck for ever, C16_exit_unguarded_refuted), a checker's time-out case leaves defaultState, a parked pool implies its pool holds a session of the announced epoch on the new server and the parked session was not closed by the manager, the manager only completes when every pool is parked, GetStream fails only on a pool whose session died by itself, events/acks with another epoch change nothing. hotRestartAckCount is never negative, covers every session in the table still waiting, and outside hotRestartState no session in the table is still waiting (C16_ack_full, all histories; holds since the repair of handleHotRestartAck — an ack counts only in hotRestartState, for the epoch in progress, on a session still waiting; the late-ack history that refuted it before stays as a regression scenario). Observed only (harness): the 2 s timers really fire and bound the exit, dials reach the new server, goroutine scheduling, traffic round trips.",
+    "level_text": "PARTIAL. Proved for any number of sessions and every event history: no reachable hotRestartState without a running checker on either side (under the guard Listener.Run enforces: sessions enter the table after their handshake — without it `return ErrInHandshakeStage` leaves a state that is stuck for ever, C16_exit_unguarded_refuted), a checker's time-out case leaves defaultState, a parked pool implies its pool holds a session of the announced epoch on the new server and the parked session was not closed by the manager, the manager only completes when every pool is parked, GetStream fails only on a pool whose session died by itself, outside hotRestartState (after a completed hand-over) the manager's checker is not running and no step but the first event of a new hot restart removes or closes a parked pool — parked sessions only die by themselves (C16_old_sessions_survive_done, C16_manager_done_returns; tied to the code by snapshots compared at every GetStream probe while an old server drains for longer than the time-out), events/acks with another epoch change nothing. hotRestartAckCount is never negative, covers every session in the table still waiting, and outside hotRestartState no session in the table is still waiting (C16_ack_full, all histories; holds since the repair of handleHotRestartAck — an ack counts only in hotRestartState, for the epoch in progress, on a session still waiting; the late-ack history that refuted it before stays as a regression scenario). Observed only (harness): the 2 s timers really fire and bound the exit, dials reach the new server, goroutine scheduling, traffic round trips.",
     "level_note": "Trusted: coqc kernel; the hand-written model (tied by accepted histories on 8 scenario kinds per round, not exhaustive); Go runtime timers and scheduling; the harness infers checker and session-death events from snapshots taken every ~2 ms (histories whose order is not observable are counted and skipped). Go map iteration order in Listener.HotRestart is modelled as list order (only matters on the unreachable early return). The rebuild watcher is outside this model (C17).",
 }
 
